@@ -494,6 +494,9 @@ class EffectiveTemperatureEquivalence(Equivalence):
         from unyt import physical_constants as pc
 
         if new_dims == flux:
+            if x.dtype.kind in "iu" and not self.in_place:
+                # the fourth power of an integer temperature overflows the integer type
+                x = x.astype("float64")
             x4 = np.power(x, 4, out=self._get_out(x))
             return np.multiply(
                 pc.stefan_boltzmann_constant_mks, x4, out=self._get_out(x)
